@@ -1145,7 +1145,8 @@ class yanny(OrderedDict):
             for t in self.tables():
                 record = np.zeros((self.size(t),), dtype=self.dtype(t))
                 for c in self.columns(t):
-                    record[c] = self[t][c]
+                    if self.size(t) > 0:
+                        record[c] = self[t][c]
                 self[t] = record.view(np.recarray)
         return
 
